@@ -89,6 +89,14 @@ func (e *histEngine) step(r *rng, k int) MalType {
 	case 17:
 		return call1("apply", sy(r.pick([]string{"conj", "concat", "vector", "list"})), prev(), vc(lit()))
 	case 18:
+		switch r.intn(4) {
+		case 0: // the rest-parameter list of each call is a value of its own
+			return call1("map", ls(sy("fn"), vc(sy("&"), sy("more")), sy("more")), prev())
+		case 1:
+			return call1("apply", ls(sy("fn"), vc(sy("a"), sy("&"), sy("more")), sy("more")), prev())
+		case 2:
+			return call1("map", ls(sy("fn"), vc(sy("a"), sy("&"), sy("more")), call1("cons", sy("a"), sy("more"))), prev())
+		}
 		return call1("map", ls(sy("fn"), vc(sy("x")), sy("x")), prev())
 	case 19:
 		return call1("quasiquote", ls(call1("splice-unquote", prev()), lit(), call1("splice-unquote", prev())))
